@@ -8,6 +8,8 @@ C04 / C05 / C03 / C06 / C07:
    vincinv   -> IGE   exact geodesic followed with the returned values arrives within 2 mm            (Trace_Geodesic)
    xyz2llh   -> Inv   converts back to the input within 0.02 mm, longitude range                       (Trace_Cart)
    llh2xyz   -> FwdAny  the closed form (sines / cosines from the specification's series) within 1 um    (Trace_Cart)
+   geo2grid / grid2geo -> TMA  the EXACT Transverse Mercator at the position involved: easting / northing 0.2 mm,
+                      scale factor 2e-8, convergence 1e-9 deg                                           (Trace_Grid)
    conform7  -> C7    similarity formula within 1 um, covariance = J Q J^T                             (Trace_Helmert)
    conform14 -> C14   parameters advanced linearly to the epoch, 2 um                                  (Trace_Helmert)
     ./check REPOTESTS quick|thorough        (both tiers run the whole suite; it takes ~15 s)
@@ -82,7 +84,7 @@ def run(ctx):
     ctx.extra["repository_tests"] = tail
     if rc != 0 or not recs:
         raise tlc.MachineryError("the repository's test-suite did not run clean under the recorder: %s" % tail)
-    geo, cart, helm = [], [], []
+    geo, cart, helm, grid = [], [], [], []
     skipped = {}
 
     def skip(why):
@@ -135,6 +137,45 @@ def run(ctx):
             la, lo = fl(a[0]), fl(a[1])
             h = fl(a[2]) if len(a) > 2 and a[2] is not None else (fl(k["ellht"]) if k.get("ellht") is not None else 0.0)
             cart.append({"ev": [c03.fwdany_event(cv, rec["name"], E, la, lo, h, out=[fl(x) for x in r["res"]])], "src": r})
+        elif fn in ("geo2grid", "grid2geo"):
+            # both directions as the exact Transverse Mercator at the geographic position involved (event TMA of Trace_Grid):
+            # geo2grid: position = arguments, grid = result;  grid2geo: grid = arguments, position = result (rounded at 1e-11 deg)
+            names = ["lat", "lon", "zone", "ellipsoid", "prj"] if fn == "geo2grid" else ["zone", "east", "north", "hemisphere", "ellipsoid", "prj"]
+            arg = {nm: (a[i] if i < len(a) else k.get(nm)) for i, nm in enumerate(names)}
+            rec, E = ell_of(arg.get("ellipsoid"), gc)
+            pj = arg.get("prj")
+            if pj is None:
+                P, pname = gc.utm, "utm"
+            else:
+                v = [float.fromhex(x) for x in pj["prj"]]
+                isg = v == [float(getattr(gc.isg, q)) for q in ("falseeast", "falsenorth", "cmscale", "zonewidth", "initialcm")]
+                P, pname = (gc.isg, "isg") if isg else (gc.Projection(*v), "recorded")
+            if fn == "geo2grid":
+                lat, lon = fl(arg["lat"]), fl(arg["lon"])
+                hemi, zone, e, n, psf, conv = r["res"]
+                zone, e, n, psf, conv = int(fl(zone)), fl(e), fl(n), fl(psf), fl(conv)
+            else:
+                zone, e, n = int(fl(arg["zone"])), fl(arg["east"]), fl(arg["north"])
+                hemi = "North" if str(arg.get("hemisphere") or "south").lower() == "north" else "South"
+                lat, lon, psf, conv = (fl(x) for x in r["res"])
+            if pname == "isg":
+                cm = (zone // 10 - 1) * float(P.zonewidth) * 3 + float(P.initialcm) + (zone % 10 - 2) * float(P.zonewidth)
+            else:
+                cm = zone * float(P.zonewidth) + float(P.initialcm) - float(P.zonewidth)
+            if abs(lat) > 84 or abs(((lon - cm + 180) % 360) - 180) > 30:
+                skip("outside the band / more than 30 deg from the central meridian")
+                continue
+            f = 1.0 / float(E.inversef)
+            nu = float(E.semimaj) / math.sqrt(1 - f * (2 - f) * math.sin(math.radians(lat)) ** 2)
+            lonround = math.degrees(1.6 * 0.5e-4 / (nu * max(math.cos(math.radians(lat)), 1e-6)))
+            o = {"lat": E_(lat), "lon": E_(lon), "latf": lat, "lonf": lon, "zonearg": zone, "args": "float",
+                 "ell": {"name": rec["name"], "a": rec["a"], "invf": rec["invf"]},
+                 "prj": {"name": pname, "fe": E_(P.falseeast), "fn": E_(P.falsenorth), "k0": E_(P.cmscale), "zw": int(P.zonewidth),
+                         "cm1": int(P.initialcm), "isg": pname == "isg"},
+                 "lonround": E_(lonround), "convround": E_(lonround + 4e-10), "n0": rec["n0"],
+                 "fwd": {"hemi": hemi, "zone": zone, "e": E_(e), "n": E_(n), "psf": E_(psf), "conv": E_(conv), "hex": ""},
+                 "inv": {"lat": [0], "lon": [0], "psf": [0], "conv": [0], "exc": "not recorded"}}
+            grid.append({"ev": [{"k": "TMA", "exc": "", "tag": r["test"], "o": o}], "src": r})
         elif fn in ("conform7", "conform14"):
             c14 = fn == "conform14"
             tr = (a[4] if c14 else a[3])["trans"]
@@ -159,7 +200,7 @@ def run(ctx):
             helm.append({"kind": "recorded", "ev": [ev], "src": r})
     ctx.extra["recorded_calls"] = len(recs)
     ctx.extra["not_judged"] = skipped
-    n = {"geodesic": len(geo), "xyz2llh_llh2xyz": len(cart), "helmert": len(helm)}
+    n = {"geodesic": len(geo), "xyz2llh_llh2xyz": len(cart), "helmert": len(helm), "geo2grid_grid2geo": len(grid)}
     ctx.extra["judged"] = n
     strip = lambda ts: [{kk: v for kk, v in t.items() if kk != "src"} for t in ts]
     allf = []
@@ -170,6 +211,13 @@ def run(ctx):
     if cart:
         fails, _ = tracecheck.validate("Trace_Cart", "Trace_Cart.cfg", strip(cart), ctx, "Trace_Cart on recorded calls", min_chunk=50, timeout=3000)
         allf += [(cart[i], c) for (i, l, c) in fails]
+    if grid:
+        from harness import gridlib
+        fails = gridlib.validate(strip(grid), ctx, "Trace_Grid (exact Transverse Mercator) on recorded calls")
+        for (i, l, c) in fails:
+            # the exact projection judges eastings / northings / scale factor / convergence; a grid2geo result is a position rounded at
+            # 1e-11 deg (1 um), inside the 0.2 mm
+            allf.append((grid[i], c))
     if helm:
         d = tempfile.mkdtemp(prefix="gvf_helm_")
         try:
@@ -182,11 +230,11 @@ def run(ctx):
     for t, clause in allf:
         ctx.violation({"clause": clause, "fn": t["src"]["fn"]}, "test=%s call=%s" % (t["src"]["test"], json.dumps(t["src"])[:600]),
                       case={"call": t["src"]})
-    for t in geo + cart + helm:
+    for t in geo + cart + helm + grid:
         ctx.nontrivial(json.dumps(t["src"], sort_keys=True)[:300])
         ctx.actions[t["src"]["fn"]] = ctx.actions.get(t["src"]["fn"], 0) + 1
     ctx.selftest(selftest, [t for t in geo if t["ev"][0]["k"] == "DGE" and not any(t is x for x, _ in allf)])
-    for t in (geo[:1] + cart[:1] + helm[:1]):
+    for t in (geo[:1] + cart[:1] + helm[:1] + grid[:1]):
         ctx.sample({"test": t["src"]["test"], "fn": t["src"]["fn"], "event": t["ev"][0].get("k", t["ev"][0].get("a"))})
     ctx.rule = ("every call of vincdir / vincinv / xyz2llh / conform7 / conform14 made while the repository's %s; distinct = distinct "
                 "recorded calls" % tail)
